@@ -467,9 +467,9 @@ class TemplateGen:
         if d > 2 or x < 0.25:
             return [(r.choice(["text ", "<p>", "\n", " ", "a\nb", "x"]), 0)]
         if x < 0.45:
-            return [("{{ ", 0)] + self.expr() + [(" }}", 0)]
+            return [("{{ ", +1)] + self.expr() + [(" }}", -1)]
         if x < 0.5:
-            return [("{{ v = ", 0)] + self.expr() + [(" }}", 0)]
+            return [("{{ v = ", +1)] + self.expr() + [(" }}", -1)]
         if x < 0.65:
             a = [("@if(", +1)] + self.expr() + [(")", 0)] + self.block(d + 1)
             for _ in range(r.choice([0, 0, 1, 2])):
@@ -511,7 +511,8 @@ class C08(Prop):
     timeout_ms = 4000
     rule = ("(a) every sequence of up to 2 lexemes from the 76-lexeme alphabet (exhaustive) and sampled (quick) or all "
             "(thorough) triples; (b) generated valid templates, every prefix at an atom boundary - prefixes that leave "
-            "an @-block, object literal, string, comment or directive argument list open must be rejected (ids C08e); "
+            "an @-block, a {{ }} block, object literal, string, comment or directive argument list open must be rejected (ids C08e), "
+            "as must tokens that follow a complete statement inside a {{ }} block; "
             "(c) single-atom deletion / duplication / swap of valid templates; (d) templates with an illegal character "
             "inside code (must be rejected); (e) random lexeme soups. Each input goes through the parser API (program "
             "or errors) ; a sample also through EvaluateString. A watchdog outside the process records hangs. "
@@ -520,9 +521,7 @@ class C08(Prop):
                    "lexing terminates and yields at most length+3 tokens. Correspondence: parser model = implementation "
                    "(error count, first error line and message, or the full AST). Oracle: returned, no panic, program or "
                    ">= 1 error with line >= 1; open-construct prefixes and illegal characters rejected.")
-    assumptions = ["an unterminated '{{ expr' with no closing '}}' at the very end of the input is not counted as an open "
-                   "construct (the property lists block, object literal, string, comment, directive argument list)",
-                   "the goroutine stack is not modelled: the parser recurses to a depth that the theorems bound by 6 x the number of "
+    assumptions = ["the goroutine stack is not modelled: the parser recurses to a depth that the theorems bound by 6 x the number of "
                    "tokens, and the runtime's 1 GB stack limit is reached by about 10^6 nested constructs (a source of several "
                    "megabytes such as 1,000,000 x '@if(true)'); generated inputs nest at most a few dozen levels"]
 
@@ -565,6 +564,16 @@ class C08(Prop):
                     else:
                         m[i], m[j] = m[j], m[i]
                     cases.append(("C08", "parse", "".join(x for x, _ in m).encode()))
+                # tokens after a complete statement inside a {{ }} block, and a block closed by a single brace
+                close_pos = [i for i, (a, _) in enumerate(atoms) if a == " }}"]
+                if close_pos:
+                    i = rng.choice(close_pos)
+                    m = list(atoms)
+                    m.insert(i, (rng.choice([" zz", " 1", " 'q'", " true"]), 0))
+                    cases.append(("C08e", "parse", "".join(x for x, _ in m).encode()))
+                    m = list(atoms)
+                    m[i] = (" }", 0)
+                    cases.append(("C08e", "parse", "".join(x for x, _ in m).encode()))
                 # an illegal character inside code
                 code_pos = [i for i, (a, _) in enumerate(atoms) if a.startswith("{{ ")]
                 if code_pos:
@@ -573,6 +582,11 @@ class C08(Prop):
                     m.insert(i + 1, (rng.choice(["#", "$", "~", "^", "&", "|", "`"]), 0))
                     cases.append(("C08e", "parse", "".join(x for x, _ in m).encode()))
         # an illegal character in every slot where the grammar expects a name, a key, an argument or an operand
+        for src in ["{{ 1", "{{ 1 }", "{{ a b }}", "{{ x = 5; x", "{{ x = 5", "{{ 1 + 2 }} {{ 3", "x{{ y", "{{ 'a' 'b' }}", "{{ 1 2 }}", "{{ a--b }}",
+                    "@if(true){{ 1 @end", "{{ x = 1 y }}", "{{ [1] 2 }}", "{{ f(1) g }}"]:
+            cases.append(("C08e", "parse", src.encode()))
+        for src in ["{{ 1; 2 }}", "{{ x = 5; x }}", "{{ x = 1 }}{{ x }}", "{{ 1;2;3 }}", "{{ a; }}"]:
+            cases.append(("C08", "parse", src.encode()))
         slots = ["{{ {%s: 1} }}", "{{ {a: 1, %s: 2} }}", "{{ {%s} }}", "@each(%s in [1, 2])x@end", "@each(v in %s)x@end", "@reserve(%s)", "@slot(%s)x@end",
                  "@slot(%s)", "@insert(%s, 1)", "@insert('a', %s)", "@insert(%s)x@end", "@use(%s)", "{{ x.%s }}", "{{ x.%s() }}", "@for(%s = 0; i < 1; i++)x@end",
                  "@for(i = 0; %s; i++)x@end", "@for(i = 0; i < 1; %s)x@end", "{{ [%s] }}", "{{ [1, %s] }}", "{{ 'a'.len(%s) }}", "@component(%s)",
@@ -821,14 +835,14 @@ class C10(Prop):
     rule = ("string literal contents over the alphabet { < > & ; # \" ' a é SP } exhaustively up to length 3 (quick) / 5 "
             "(thorough) plus existing entities (&amp; &#34; &lt; &#39; &quot;) and random longer strings x both quote "
             "styles x usage contexts: printed directly, concatenated with another literal, stored in a variable, placed "
-            "in an array and indexed, through a ternary, and with raw(). Expected output from the extracted "
+            "in an array and indexed, through a ternary, with raw(), and - in template trees - written directly as an insert "
+            "argument, inside an insert block, as a component argument and inside a slot body. Expected output from the extracted "
             "specification (esc_spec; raw() = original text). Non-trivial: the content has at least one of < > & \" '.")
     explanation = ("Theorems on the specification escaper: output has no raw '<' or '>', every '&' starts one of "
                    "&amp; &lt; &gt;, quotes are kept, unescaping gives back the literal; the model's evalString "
                    "(html.EscapeString then quote restoration) equals the specification escaper. Correspondence: render "
                    "model = implementation. Oracle: implementation output = specification output.")
-    assumptions = ["literal contents contain no backslash and no NUL (the lexer's quote unescaping is C19/C08's subject)",
-                   "insert / component argument contexts are exercised under C06 / C07"]
+    assumptions = ["literal contents contain no backslash and no NUL (the lexer's quote unescaping is C19/C08's subject)"]
     ALPHA = ["<", ">", "&", ";", "#", '"', "'", "a", "é", " "]
     ENT = ["&amp;", "&#34;", "&lt;", "&#39;", "&quot;", "&gt;", "&#x3c;", "&", "&&", "<b>", "</b>", "&#38;"]
 
@@ -869,6 +883,22 @@ class C10(Prop):
                 B(["(each v (arr %s %s) %s none)" % (lit, lit, B(["(print (call (var v) raw))", T(":"), "(print (var v))", T(";")]))]),
             ]
             lines.append("C10:r%d\txtpl\t%s\t-" % (i, hx(shapes[i % len(shapes)])))
+        # the literal written directly as an insert argument and as a component argument: the same escaped text as when it
+        # is printed in place (the printing in place is what the cases above compare with the specification)
+        tcount = 0
+        for c in special[: {"quick": 120, "thorough": 1500, "search": 300}[tier]] + ["<b>&", "a<b", "&amp;", "<", ">", "&"]:
+            if "'" in c and '"' in c:
+                continue
+            q = '"' if "'" in c else "'"
+            lit = q + c + q
+            files = [("tpl/layouts/main.tw", "file", "<t>@reserve('t')</t>"), ("tpl/components/c.tw", "file", "<c>{{ v }}|@slot</c>"),
+                     ("tpl/page.tw", "file", "@use('~main')@insert('t', %s)" % lit),
+                     ("tpl/page2.tw", "file", "@component('~c', {v: %s})@slot %s @end@end" % (lit, "{{ %s }}" % lit)),
+                     ("tpl/page3.tw", "file", "@use('~main')@insert('t'){{ %s }}@end" % lit)]
+            ops = [op_new("tpl", ".tw"), op_string("page"), op_evalstr("<t>{{ %s }}</t>" % lit), op_string("page2"),
+                   op_evalstr("<c>{{ %s }}| {{ %s }} </c>" % (lit, lit)), op_string("page3")]
+            lines.append(tree_case("C10:t%d" % tcount, files, ops, ["ok:0", "ok:1", "ok:2", "eq:1:2", "ok:3", "eq:3:4", "eq:5:2", "nopanic"]))
+            tcount += 1
         return lines, {"exhaustive": False, "distribution": distribution([c.encode() for c in contents]),
                        "exhaustive_part": "all contents over 10 symbols up to length %d" % maxlen}
 
@@ -1281,6 +1311,16 @@ class C04(Prop):
                 cases.append((t, "-"))
                 if not outer:
                     cases.append((t, "((%s (int 7)))" % hx("seen")))
+        # a @for without an init clause still has a scope of its own: what its body (or its post clause) assigns is
+        # gone after the loop and does not change what the enclosing block sees
+        for post in ["none", "(set n (bin add (var n) (int 1)))"]:
+            body = ["(print (var n))", T(",")] + (["(assign n (bin add (var n) (int 1)))"] if post == "none" else []) + ["(assign m (int 7))"]
+            for cond in ["(bin lt (var n) (int 2))"]:
+                t = B(["(assign n (int 0))", "(assign m (int 1))", "(for none %s %s %s none)" % (cond, post, B(body)), T("|"), "(print (var n))", T("|"), "(print (var m))"])
+                cases.append((t, "-"))
+                t2 = B(["(for none %s %s %s none)" % (cond, post, B(body)), T("|"), "(print (var n))"])
+                cases.append((t2, "((%s (int 0)))" % hx("n")))
+                cases.append((B(["(if (bool 1) %s (elifs) none)" % B(["(assign n (int 0))", "(for none %s %s %s none)" % (cond, post, B(body)), T("|"), "(print (var n))"])]), "-"))
         for els in [("(int 1)", "(str %s 1)" % hx("a")), ("(int 1)", "(float 15 1)"), ("(str %s 1)" % hx("a"), "(int 2)"), ("(bool 1)", "(nil)"),
                     ("(int 1)", "(int 2)"), ("(arr)", "(arr (int 1))"), ("(arr (int 1))", "(obj (k (int 1)))")]:
             cases.append((B(["(each q (arr %s %s) %s none)" % (els[0], els[1], B(["(print (var q))", T(",")])), T("|")]), "-"))
@@ -1443,6 +1483,14 @@ class C06(Prop):
                 files = [("tpl/page.tw", "file", page), ("tpl/layouts/main.tw", "file", lay)]
                 ops = [op_new("tpl", ".tw"), op_string("page", TREE_DATA), op_evalstr(inlined, TREE_DATA)]
                 lines.append(tree_case("C06:l%d_%d" % (li, ci), files, ops, ["ok:0", "ok:1", "eq:1:2", "nopanic"]))
+        # '~' is the alias of the layouts directory only as the FIRST character of a name: a layout whose own name holds a
+        # tilde elsewhere (versioned names, backup copies) is found under exactly that name
+        for li, lname in enumerate(["base~v2", "main~", "a~b~c", "sub/lay~old", "~tilde~inside"]):
+            lay = "<t>@reserve('title')</t>{{ name }}"
+            fname = "layouts/" + lname[1:] if lname.startswith("~") else lname
+            files = [("tpl/page.tw", "file", "@use('%s')@insert('title')T@end" % lname), ("tpl/%s.tw" % fname, "file", lay)]
+            ops = [op_new("tpl", ".tw"), op_string("page", TREE_DATA), op_evalstr(lay.replace("@reserve('title')", "T"), TREE_DATA)]
+            lines.append(tree_case("C06:t%d" % li, files, ops, ["ok:0", "ok:1", "eq:1:2", "nopanic"]))
         # several pages of one directory share a layout: each page sees the layout filled with ITS inserts only,
         # whatever the other pages insert and in whatever order the files are loaded
         for i in range({"quick": 60, "thorough": 600, "search": 120}[tier]):
@@ -1654,7 +1702,10 @@ class C13(Prop):
              # an unexpected token on a later line than the token before it: the line is the unexpected token's
              ("{{ {a: 1\n b: 2} }}", "parse", 1), ("{{ [1, 2\n\n }}", "parse", 2), ("{{ 'a'.len(1\n }}", "parse", 1),
              ("{{ true ? 1\n }}", "parse", 1), ("{{ (1 + 2\n\n\n }}", "parse", 3), ("@if(true\n x@end", "parse", 1),
-             ("@each(q in [1]\n\n x@end", "parse", 2), ("{{ ob[1\n }}", "parse", 1), ("@component('c', {a: 1\n b: 2})", "parse", 1)]
+             ("@each(q in [1]\n\n x@end", "parse", 2), ("{{ ob[1\n }}", "parse", 1), ("@component('c', {a: 1\n b: 2})", "parse", 1),
+             # an illegal character that is the FIRST byte of its line (LF and CRLF line ends), and one after indentation
+             ("{{ 1 +\n# }}", "parse", 1), ("{{\n# }}", "parse", 1), ("@if(\n~)x@end", "parse", 1), ("{{ ob\n\n$ }}", "parse", 2),
+             ("{{ [1,\r\n^] }}", "parse", 1), ("{{ 1 +\n  # }}", "parse", 1), ("{{ 1 *\n\n\n| 2 }}", "parse", 3), ("@each(v in\n`x`)y@end", "parse", 1)]
     DATA = "((%s (map (%s (int 1)))))" % (hx("ob"), hx("k"))
 
     def build(self, rng):
@@ -1756,9 +1807,20 @@ class C14(Prop):
         lines = []
         n = {"quick": 60, "thorough": 400, "search": 120}[tier]
         for i in range(n):
-            k = i % 7
+            k = i % 8
             nk = rng.choice([2, 3, 5, 8])
-            if k == 0:
+            if k == 7:
+                # component arguments that all EVALUATE but several of which cannot be BOUND (the name is visible with
+                # another type, or is the reserved name): the error names the first one in key order, every time
+                ks = rng.sample(self.KEYS, rng.choice([2, 3, 4]))
+                pre = "".join("{{ %s = 1 }}" % key for key in ks)
+                args = ["%s: 's%d'" % (key, j) for j, key in enumerate(ks)]
+                if rng.random() < 0.5:
+                    args.append("loop: 1")
+                rng.shuffle(args)
+                files = [("tpl/pg.tw", "file", pre + "@component('~c', {%s})" % ", ".join(args)), ("tpl/components/c.tw", "file", "C")]
+                ops = [op_new("tpl", ".tw")] + [op_string("pg")] * reps
+            elif k == 0:
                 src = "{{ %s }}|@dump(%s)" % (self.obj_lit(rng, nk), self.obj_lit(rng, nk))
                 files, ops = [], [op_evalstr(src)] * reps
             elif k == 1:
@@ -1793,7 +1855,7 @@ class C14(Prop):
                 files = [("tpl/pg.tw", "file", "@component('~c', %s)" % self.obj_lit(rng, nk, failing=2) + "|{{ %s }}" % obj),
                          ("tpl/components/c.tw", "file", "C")]
                 ops = [op_new("tpl", ".tw")] + [op_string("pg")] * reps
-            cons = ["eq:%d:%d" % (j, j + 1) for j in range(len(ops) - 1) if not (k == 6 and j == 0)] + ["nopanic"]
+            cons = ["eq:%d:%d" % (j, j + 1) for j in range(len(ops) - 1) if not (k in (6, 7) and j == 0)] + ["nopanic"]
             for p in range(procs):
                 lines.append(tree_case("C14:%d_p%d" % (i, p), files, ops, cons))
         return lines, {"exhaustive": False, "distribution": {"histories": n, "repetitions": reps, "fresh_processes": procs}}
@@ -2267,6 +2329,12 @@ class C20(Prop):
                    op_evalstr("{{ x = %s }}{{ x.reverse() }}|{{ x }}|{{ x }}|{{ x }}" % recv, self.DATA)]
             lines.append(tree_case("C20:m%d" % i, [("tpl/p.tw", "file", "p")], ops,
                                    ["nopanic", "ok:0", "ok:1", "ok:2", "ok:3", "eq:2:3", "eq:4:5"]))
+        # a custom array function that returns a nil slice (a filter that matches nothing): an empty ARRAY, not nil
+        ops = ["(reg arr %s nilres)" % hx("nr"), op_evalstr("{{ [1, 3].nr().len() }}"), op_evalstr("@each(v in [1].nr())x@else E@end"),
+               op_evalstr("{{ [2].nr().append(1) }}"), op_evalstr("{{ x = [1].nr() }}{{ x.len() }}|{{ x.append(7).len() }}"),
+               op_evalstr("{{ [].nr().len() }}")]
+        lines.append(tree_case("C20:n0", [("tpl/p.tw", "file", "p")], ops,
+                               ["nopanic", "ok:0", "out:1:" + hx("0"), "out:2:" + hx(" E"), "out:3:" + hx("1"), "out:4:" + hx("0|1"), "out:5:" + hx("0")]))
         # a result that holds a value textwire cannot represent is an error, like the same value passed as data
         for i, fn in enumerate(["unsup", "unsup2"]):
             ops = ["(reg arr %s %s)" % (hx("bad"), fn), op_evalstr("{{ [1].bad() }}"), op_evalstr("{{ x = [1, 2].bad() }}ok"),
